@@ -5,7 +5,8 @@
    udp <id> <b2> <l1.l2..|-> <qtype> <client|-> <cfg|-> <rb2> <rb3> <n_an> <an_len> <n_ar> <ar_len> <size:dlen|->
                                                 => Ok len= tc= id= cnt=q,a,n,r opt= b2=
    frame <hex>                                  => Ok <hex> | Err 1
-   conn <hexchunk> ...                          => open|closed <D:id:len|F:id:len|X> ... *)
+   conn <hexchunk> ...                          => open|closed D:id:len.. F:id:len.. X   (dispatches, then direct FORMERRs (only on a connection that stays open:
+        after DisconnectWithoutFlush queued responses are not written), then the disconnect) *)
 let n_of s = n_of_int (int_of_string s)
 let opt_n s = if s = "-" then None else Some (n_of s)
 let show_n x = string_of_int (int_of_n x)
@@ -34,6 +35,10 @@ let handle = function
   | ["frame"; h] -> show_outcome hex_of_bytes (c16_frame_out (bytes_of_hex h))
   | "conn" :: chunks ->
       let (op, evs) = c16_conn (List.map bytes_of_hex chunks) in
-      String.concat " " ((if op then "open" else "closed") :: List.map ev_str evs)
+      let is_d = function EvDispatch _ -> true | _ -> false in
+      let is_f = function EvFormErr _ -> true | _ -> false in
+      let is_x = function EvDisconnect -> true | _ -> false in
+      String.concat " " ((if op then "open" else "closed") ::
+        List.map ev_str (List.filter is_d evs @ (if op then List.filter is_f evs else []) @ List.filter is_x evs))
   | _ -> failwith "bad case line"
 let () = main handle
